@@ -2087,3 +2087,26 @@ def check_loop_exhaustive(ctx, rule, q, site_suffix, what):
         ctx.bad(rule, site, 'the loop can be left before its iterator is exhausted (%d of %d exits): %s' % (len(bad), len(exits), what), b.span)
     else:
         ctx.ok(rule, site, 'the loop ends only when its iterator is exhausted (or the function fails)', b.span)
+
+
+def check_interval_guard(ctx, rule, q, lo, hi):
+    """parameters `lo`, `hi` are inclusive bounds: a precondition on the pair may reject lo > hi only (lo == hi is legal)"""
+    from ..mir import strip_sites as s_
+    bodies = [b for b in ctx.facts.bodies if b.qname == q]
+    if len(bodies) != 1:
+        ctx.lost(rule, q)
+        return
+    b = bodies[0]
+    R = Resolver(b)
+    LO, HI = ('param', lo), ('param', hi)
+    strict = False
+    for bb, e in R.return_expr():
+        for op, x, y in cmp_facts(literals(b, R, bb)):
+            x, y = s_(x), s_(y)
+            if (op == 'Lt' and x == LO and y == HI) or (op == 'Gt' and x == HI and y == LO) or (op == 'Ne' and {x, y} == {LO, HI}):
+                strict = True
+    site = q + '#interval-guard'
+    if strict:
+        ctx.bad(rule, site, 'the result is only built under %s < %s: equal bounds (inclusive on both sides) are rejected' % (lo, hi), b.span)
+    else:
+        ctx.ok(rule, site, 'equal bounds are admitted (any precondition on (%s, %s) is non-strict)' % (lo, hi), b.span)
